@@ -209,7 +209,15 @@ def r3b(ctx):
     for b, s, t in oks:
         v = strip(agg_field(t, "0"))
         shown.append(term_str(v)[:60])
-        good = good and v[0] == "call" and v[2].endswith("::is_none") and path_of(strip(v[3][0])) == "~NodeQueue.extra"
+        isq = False
+        if v[0] == "call" and v[2].endswith("::is_none"):
+            a = strip(v[3][0])
+            if path_of(a) == "~NodeQueue.extra":
+                isq = True
+            else:
+                rs = roots(a)
+                isq = bool(rs) and all(r[0] == "field" and r[2] == "extra" and strip(r[1])[0] == "call" and strip(r[1])[2] == NQ_NEW for r in rs)
+        good = good and isq
     ctx.check(P, rule, "verify_upgrade reports 'root consumed' only when the queue's extra node is gone", good, "Ok(q.extra.is_none())",
               "verify_upgrade's result is %s, not `q.extra.is_none()`: the recomputed block root can be exempted from the comparison with the stored node although the signed roots do not cover it" % shown,
               [loc(fa, b, s) for b, s, t in oks], key="C04|C04.R3|verify_upgrade|root consumed flag")
